@@ -77,7 +77,10 @@ def run(tier, seed):
                         elif how == "remove" and not m.parts:
                             want = ("error", "JSONPatchError")
                         else:
-                            want = ("ok", edit(d, m.parts, how))
+                            try:
+                                want = ("ok", edit(d, m.parts, how))
+                            except (KeyError, IndexError, TypeError) as e:
+                                want = ("the match's parts do not address a node of the document", type(e).__name__)
                         if repr(got) == repr(want):
                             rec.ok((t, m.path, how) if len(m.parts) > 1 else None, {"query": t, "path": m.path, "operation": how, "via": name} if len(m.parts) > 1 and len(rec.samples) < 4 else None)
                         else:
